@@ -119,7 +119,8 @@ func runTools(env *Env) error {
 func smallIsoTree(env *Env, name string, ps3 bool) (*WNode, string) {
 	tree := genIsoTree(env, isoShape{depth: env.Rnd.Intn(3), maxKids: 1 + env.Rnd.Intn(5)}, name)
 	titleID := ""
-	if ps3 {
+	game := ps3 || env.Rnd.Intn(2) == 0 // a game folder may also be turned into a plain image: the mode is the caller's choice, not the tree's
+	if game {
 		titleID = []string{"BLES01234", "BCUS98111", "ABCD", strings.Repeat("T", 31)}[env.Rnd.Intn(4)]
 		if env.Rnd.Intn(8) == 0 {
 			titleID = []string{"ABC", strings.Repeat("T", 32)}[env.Rnd.Intn(2)]
